@@ -46,6 +46,76 @@ type Op struct {
 	IK      string
 	Dry     bool
 	Now     int64
+	// a create whose Numscript also sets metadata: the script is TxToScriptData's text followed by one set_tx_meta line per
+	// SMeta entry and one set_account_meta line per SAccMeta entry (Meta / AccMeta stay what the REQUEST carries beside it)
+	Script   bool
+	SMeta    []KV
+	SAccMeta map[string][]KV
+}
+
+func accMetaSx(m map[string][]KV) string {
+	var accs []string
+	for a := range m {
+		accs = append(accs, a)
+	}
+	sort.Strings(accs)
+	am := make([]string, len(accs))
+	for i, a := range accs {
+		am[i] = L(Q(a), kvsx(m[a]))
+	}
+	return L(am...)
+}
+
+// scriptText: the Numscript a script create submits (metadata lines appended to the postings script)
+func (o Op) scriptText(plain string) string {
+	var b strings.Builder
+	b.WriteString(plain)
+	for _, kv := range o.SMeta {
+		fmt.Fprintf(&b, "set_tx_meta(%s, %s)\n", nsString(kv.K), nsString(kv.V))
+	}
+	var accs []string
+	for a := range o.SAccMeta {
+		accs = append(accs, a)
+	}
+	sort.Strings(accs)
+	for _, a := range accs {
+		for _, kv := range o.SAccMeta[a] {
+			fmt.Fprintf(&b, "set_account_meta(@%s, %s, %s)\n", a, nsString(kv.K), nsString(kv.V))
+		}
+	}
+	return b.String()
+}
+
+// nsString: a Numscript string literal (the generator only uses plain alphanumerics and the empty string here)
+func nsString(s string) string {
+	if strings.ContainsAny(s, "\"\\\n\r") {
+		panic("script metadata strings are restricted to plain characters: " + s)
+	}
+	return `"` + s + `"`
+}
+
+// accMetaAll (for monitors, independent of the model): the account metadata a committed create writes: what the script set,
+// with the request's accountMetadata over it key by key
+func (o Op) accMetaAll() map[string][]KV {
+	if !o.Script || len(o.SAccMeta) == 0 {
+		return o.AccMeta
+	}
+	tmp := map[string]map[string]string{}
+	for _, src := range []map[string][]KV{o.SAccMeta, o.AccMeta} {
+		for a, kvs := range src {
+			if tmp[a] == nil {
+				tmp[a] = map[string]string{}
+			}
+			for _, kv := range kvs {
+				tmp[a][kv.K] = kv.V
+			}
+		}
+	}
+	out := map[string][]KV{}
+	for a, m := range tmp {
+		out[a] = sortKV(m)
+	}
+	return out
 }
 
 type Feat struct{ Moves, PCEV, AccHist, TxHist, Hash bool }
@@ -115,16 +185,11 @@ func (o Op) inputSx() string {
 		if o.TS != nil {
 			ts = fmt.Sprint(*o.TS)
 		}
-		var accs []string
-		for a := range o.AccMeta {
-			accs = append(accs, a)
+		if o.Script {
+			in = L("script", L(ps...), ts, Q(o.Ref), kvsx(o.Meta), accMetaSx(o.AccMeta), b01(o.Force), kvsx(o.SMeta), accMetaSx(o.SAccMeta))
+		} else {
+			in = L("create", L(ps...), ts, Q(o.Ref), kvsx(o.Meta), accMetaSx(o.AccMeta), b01(o.Force))
 		}
-		sort.Strings(accs)
-		am := make([]string, len(accs))
-		for i, a := range accs {
-			am[i] = L(Q(a), kvsx(o.AccMeta[a]))
-		}
-		in = L("create", L(ps...), ts, Q(o.Ref), kvsx(o.Meta), L(am...), b01(o.Force))
 	case "revert":
 		in = L("revert", fmt.Sprint(o.TxID), b01(o.Force), b01(o.AtEff), kvsx(o.Meta))
 	case "setmeta":
@@ -198,6 +263,75 @@ func genMeta(r *Rng, p HistProfile) []KV {
 	}
 	sort.Slice(out, func(i, j int) bool { return out[i].K < out[j].K })
 	return out
+}
+
+// genScriptMeta turns a create into a script create: 1-2 set_tx_meta (keys of the request metadata alphabet, so that the
+// override rule fires; the empty value, which a request MAY override), 0-2 set_account_meta, most often on the account the
+// request's accountMetadata names too, with common and disjoint keys
+func genScriptMeta(r *Rng, o *Op) {
+	o.Script = true
+	keys := []string{"k1", "k2", "role"}
+	nk := 1 + r.Intn(2)
+	seen := map[string]bool{}
+	for i := 0; i < nk; i++ {
+		k := Pick(r, keys)
+		if len(o.Meta) > 0 && r.Chance(35) {
+			k = Pick(r, o.Meta).K // same key as the request
+		} else if len(o.Meta) > 0 && r.Chance(50) {
+			for _, c := range keys { // a key the request does not carry
+				free := true
+				for _, kv := range o.Meta {
+					free = free && kv.K != c
+				}
+				if free {
+					k = c
+				}
+			}
+		}
+		if seen[k] {
+			continue
+		}
+		seen[k] = true
+		v := Pick(r, []string{"v1", "v2", "v3"})
+		if r.Chance(20) {
+			v = ""
+		}
+		o.SMeta = append(o.SMeta, KV{k, v})
+	}
+	sort.Slice(o.SMeta, func(i, j int) bool { return o.SMeta[i].K < o.SMeta[j].K })
+	na := r.Intn(3)
+	if o.AccMeta != nil && na == 0 && r.Chance(70) {
+		na = 1
+	}
+	if o.AccMeta == nil && na > 0 && r.Chance(50) { // the request names an account too
+		o.AccMeta = map[string][]KV{Pick(r, genAccounts): genMeta(r, HistProfile{})}
+	}
+	for i := 0; i < na; i++ {
+		a := Pick(r, genAccounts)
+		if o.AccMeta != nil && (i == 0 || r.Chance(50)) && r.Chance(80) {
+			for x := range o.AccMeta { // one entry at most
+				a = x
+			}
+		}
+		if o.SAccMeta == nil {
+			o.SAccMeta = map[string][]KV{}
+		}
+		if _, dup := o.SAccMeta[a]; dup {
+			continue
+		}
+		var kvs []KV
+		sk := map[string]bool{}
+		for j, n := 0, 1+r.Intn(2); j < n; j++ {
+			k := Pick(r, keys)
+			if sk[k] {
+				continue
+			}
+			sk[k] = true
+			kvs = append(kvs, KV{k, Pick(r, []string{"v1", "v2", "v3", "s"})})
+		}
+		sort.Slice(kvs, func(i, j int) bool { return kvs[i].K < kvs[j].K })
+		o.SAccMeta[a] = kvs
+	}
 }
 
 // genHistory generates operations online: exec runs each one on the implementation so that later choices can
@@ -287,6 +421,9 @@ func genHistory(r *Rng, p HistProfile, feat Feat, exec func(Op) OpResult) []Op {
 				o.AccMeta = map[string][]KV{Pick(r, genAccounts): genMeta(r, p)}
 			}
 			o.Force = r.Chance(15)
+			if p.ScriptsPct > 0 && r.Chance(p.ScriptsPct) {
+				genScriptMeta(r, &o)
+			}
 			ntx++ // may fail; ids may also be skipped: reverts/meta pick ids in a slightly larger range
 		case k < 62:
 			o.Kind = "revert"
@@ -399,6 +536,8 @@ func classify(err error) string {
 		return "not_found"
 	case errors.Is(err, ledgercontroller.ErrNoPostings):
 		return "no_postings"
+	case errors.Is(err, &ledgercontroller.ErrMetadataOverride{}):
+		return "metadata_override"
 	case errors.Is(err, ledgercontroller.ErrIdempotencyKeyConflict{}) || errors.Is(err, ledgerstore.ErrIdempotencyKeyConflict{}):
 		return "idempotency_conflict"
 	}
@@ -479,7 +618,11 @@ func runOp(ctx context.Context, ctrl ledgercontroller.Controller, o Op) (res OpR
 		if o.TS != nil {
 			td.Timestamp.Time = tsOf(*o.TS)
 		}
-		in := ledgercontroller.CreateTransaction{RunScript: ledgercontroller.TxToScriptData(td, o.Force)}
+		rs := ledgercontroller.TxToScriptData(td, o.Force)
+		if o.Script {
+			rs.Script.Plain = o.scriptText(rs.Script.Plain)
+		}
+		in := ledgercontroller.CreateTransaction{RunScript: rs}
 		if o.AccMeta != nil {
 			in.AccountMetadata = map[string]metadata.Metadata{}
 			for a, m := range o.AccMeta {
